@@ -80,8 +80,24 @@ def rand_event(rng, fmt, rollover=False):
 
 def run(tier, seed):
     rng = random.Random(seed)
-    T = Tally()
-    reps = 12 if tier == 'quick' else 400
+    T = Tally(max_fail=8)
+    reps = 40 if tier == 'quick' else 600
+    # directed minimal records first (the tally keeps the first failures); coordinates exact in float32
+    loc = {'lon': '13.0', 'lat': '42.5', 'depth': '10.0', 'mag': '3.5'}
+    T.run('catalog_reader', {'fmt': 'zmap', 'events': [dict(loc, t=[2011, 3, 11, 5, 46, '24']), dict(loc, t=[2011, 3, 11, 6, 15, '40'])]},
+          key=('D11', 'zmap two records'))
+    T.run('catalog_reader', {'fmt': 'zmap', 'events': [dict(loc, t=[2011, 3, 11, 5, 46, '24'])]}, key=('zmap one record',))
+    T.run('catalog_reader', {'fmt': 'ingv_horus', 'events': [dict(loc, t=[2017, 4, 22, 4, 42, '58.06']), dict(loc, t=[2020, 9, 22, 10, 60, '64.29'])]},
+          key=('D15', 'horus fractional seconds'))
+    T.run('catalog_reader', {'fmt': 'ingv_horus', 'events': [dict(loc, t=[2017, 4, 22, 4, 42, '58.00'], lat='42.9043', lon='13.0005', depth='11.1', mag='5.95'),
+                                                            dict(loc, t=[2017, 4, 22, 4, 43, '0.00'])]}, key=('horus float32 columns',))
+    T.run('catalog_reader', {'fmt': 'ingv_horus', 'events': [dict(loc, t=[2017, 4, 22, 4, 42, '58.00'])]}, key=('horus one record',))
+    nd = {'lon': '-88.78', 'lat': '13.78', 'depth': '193.1', 'm0': '1.312', 'exp': 23, 'mag': '0'}
+    T.run('catalog_reader', {'fmt': 'ndk', 'events': [dict(nd, t=[2005, 1, 1, 1, 20, '05.4'])]}, key=('ndk tenths of seconds',))
+    T.run('catalog_reader', {'fmt': 'ndk', 'events': [dict(nd, t=[2005, 1, 1, 1, 20, '60.0']), dict(nd, t=[2005, 12, 31, 23, 59, '60.0'])]},
+          key=('ndk seconds 60',))
+    T.run('catalog_reader', {'fmt': 'jma-csv', 'events': [dict(loc, t=[1919, 11, 10, 22, 31, '03.590000'], tz='+0900'),
+                                                         dict(loc, t=[2000, 1, 1, 0, 0, '00.001000'], tz='-0330')]}, key=('jma offsets',))
     for fmt in FORMATS:
         # directed: one record, two records, the D15 / rollover records
         base = rand_event(random.Random(1), fmt)
